@@ -20,7 +20,10 @@ def draw_cfg(rng, fams=None, kinds=None, impls=("c", "py"), hk=False,
     if p_sub and rng.random() < p_sub:
         # the container is an instance of a trivial user subclass of the
         # package's class (its interior nodes too; its leaves are not)
-        cfg["dom"]["sub"] = True
+        # ... or, for half of the trees, a subclass that also names a leaf
+        # class of its own (`_bucket_type`)
+        cfg["dom"]["sub"] = "leaf" if (is_tree(kind) and
+                                       rng.random() < 0.5) else True
     return cfg
 
 
